@@ -84,7 +84,7 @@ def eval_case(desc, ctx):
     if desc["k"] == "setup":
         cases, problems, nt = su.eval_setup(desc["setup"], d, [(2, desc["shift"])], indep=True)
         return {"ints": cases, "oracle": "; ".join(problems[:3]) or None, "nontrivial": (desc["seed"], "setup") if nt else None,
-                "kind": "setup-shift-" + ("rev" if desc["setup"]["rev"] else "fwd"), "observed": {"frames": desc["setup"]["fsteps"], "shift": desc["shift"]}}
+                "kind": "setup-shift-" + ("rev" if desc["setup"]["rev"] else "fwd"), "observed": {"frames": desc["setup"]["fsteps"], "shift": desc["shift"], "adv": su.ADV[int(desc["setup"].get("adv", 0))]}}
     env = desc["env"]
     if desc["k"] == "warm-indep":
         return eval_warm(desc, d)
